@@ -1144,3 +1144,258 @@ impl Check for C08 {
         })
     }
 }
+
+// ---------------------------------------------------------------------------------------------
+// C09: well-formedness for the independent decoder
+
+pub struct C09;
+
+fn c09_common(
+    d: &indep::Decoded,
+    names: &[(String, u32)],
+    opts: &Opts,
+    tags: &[String],
+    out: &mut Outcome,
+) {
+    for p in d.problems.iter().take(4) {
+        // the words of the message (numbers stripped) identify the rule that was broken
+        out.fail(&format!("malformed:{}", slug(p)), tags, p.clone());
+    }
+    // a B+ tree needs ascending keys; bigtools writes leaves in id (first-appearance) order, so
+    // this is demanded only when the input named its chromosomes in ascending order
+    let input_sorted = names.windows(2).all(|w| w[0].0.as_bytes() < w[1].0.as_bytes());
+    if d.chrom_keys_unsorted {
+        if input_sorted {
+            out.fail("malformed:chromosome_tree_keys_not_sorted", tags, format!("chromosome tree keys {:?}", d.chroms));
+        } else {
+            out.count("dont_care_unsorted_chrom_keys_for_out_of_order_input", 1);
+        }
+    }
+    if d.version != 4 {
+        out.fail("header_version", tags, format!("version {}", d.version));
+    }
+    if !d.le {
+        out.fail("header_byte_order", tags, "writer produced a big-endian file on a little-endian host".into());
+    }
+    // chromosome table: ids dense in first-appearance order, sizes as supplied
+    let mut by_id: Vec<(u32, String, u32)> = d.chroms.iter().map(|c| (c.1, c.0.clone(), c.2)).collect();
+    by_id.sort();
+    let got: Vec<(String, u32)> = by_id.iter().map(|c| (c.1.clone(), c.2)).collect();
+    if got != names {
+        out.fail(
+            "chrom_tree_content",
+            tags,
+            format!("chromosome tree (by id) {:?}, expected {:?}", got, names),
+        );
+    }
+    if opts.compress != (d.uncompress_buf > 0) && !d.main.leaves.is_empty() {
+        out.fail(
+            "uncompress_buf_vs_compression",
+            tags,
+            format!("compress={} but uncompressBufSize={}", opts.compress, d.uncompress_buf),
+        );
+    }
+    if d.main.block_size != opts.bs {
+        out.fail("index_block_size", tags, format!("index block size {} != option {}", d.main.block_size, opts.bs));
+    }
+    if d.main.items_per_slot != opts.ips {
+        out.fail("index_items_per_slot", tags, format!("itemsPerSlot {} != option {}", d.main.items_per_slot, opts.ips));
+    }
+    if d.zooms.len() > 10 {
+        out.fail("too_many_zoom_levels", tags, format!("{} zoom levels", d.zooms.len()));
+    }
+}
+
+fn c09_zooms(
+    d: &indep::Decoded,
+    signals: &[Vec<Option<f64>>],
+    tags: &[String],
+    out: &mut Outcome,
+) {
+    let mut dc = 0u64;
+    for z in &d.zooms {
+        for (ci, sig) in signals.iter().enumerate() {
+            let recs: Vec<ZR> = z
+                .blocks
+                .iter()
+                .flatten()
+                .filter(|r| r.chrom == ci as u32)
+                .map(|r| ZR {
+                    start: r.start,
+                    end: r.end,
+                    valid: r.valid as u64,
+                    min: r.min as f64,
+                    max: r.max as f64,
+                    sum: r.sum as f64,
+                    sumsq: r.sumsq as f64,
+                })
+                .collect();
+            out.count("zoom_records_decoded", recs.len() as u64);
+            for (k, det) in check_zoom_level(sig, z.reduction, &recs, &mut dc) {
+                out.fail(&k, tags, format!("decoded zoom {} chrom {}: {}", z.reduction, ci, det));
+            }
+        }
+        // records grouped by chromosome in ascending id order
+        let ids: Vec<u32> = z.blocks.iter().flatten().map(|r| r.chrom).collect();
+        if ids.windows(2).any(|w| w[1] < w[0]) {
+            out.fail("zoom_chrom_order", tags, format!("zoom {} records not grouped by ascending chromosome", z.reduction));
+        }
+    }
+}
+
+pub fn oracle_c09_wig(c: &WigCase, bytes: &[u8], out: &mut Outcome) {
+    let tags = wig_tags(c);
+    let d = match indep::decode(bytes) {
+        Ok(d) => d,
+        Err(e) => {
+            out.fail("undecodable_file", &tags, e);
+            return;
+        }
+    };
+    if d.kind != indep::Kind::Wig {
+        out.fail("wrong_magic", &tags, "bigWig writer produced a bigBed magic".into());
+    }
+    let names: Vec<(String, u32)> = c.chroms.iter().map(|c| (c.name.clone(), c.len)).collect();
+    c09_common(&d, &names, &c.opts, &tags, out);
+    if d.data_count != d.wig_sections.len() as u64 {
+        out.fail("data_count", &tags, format!("dataCount {} != {} sections", d.data_count, d.wig_sections.len()));
+    }
+    // decoded records = input
+    for (ci, ch) in c.chroms.iter().enumerate() {
+        let got: Vec<(u32, u32, u32)> = d
+            .wig_sections
+            .iter()
+            .filter(|s| s.chrom == ci as u32)
+            .flat_map(|s| s.items.iter().map(|i| (i.0, i.1, i.2.to_bits())))
+            .collect();
+        let want: Vec<(u32, u32, u32)> = ch.items.iter().map(|i| (i.s, i.e, i.vb)).collect();
+        if got != want {
+            out.fail("decoded_records_differ", &tags, format!("{}: decoded {:?}, wrote {:?}", ch.name, got, want));
+        }
+    }
+    if d.wig_sections.windows(2).any(|w| w[1].chrom < w[0].chrom) {
+        out.fail("section_chrom_order", &tags, "sections not in ascending chromosome order".into());
+    }
+    // summary from decoded records
+    if let Some(s) = &d.summary {
+        let mut tot = Stats { min: f64::INFINITY, max: f64::NEG_INFINITY, ..Default::default() };
+        for ch in &c.chroms {
+            tot = merge_stats(&tot, &stats_of(&wig_signal(ch)));
+        }
+        if s.bases != tot.bases || !close64(s.sum, tot.sum, tot.abs_sum) || !close64(s.sumsq, tot.sumsq, tot.abs_sumsq) {
+            out.fail("decoded_summary", &tags, format!("summary {:?}, data gives bases {} sum {:e} sumsq {:e}", s, tot.bases, tot.sum, tot.sumsq));
+        }
+    } else {
+        out.fail("no_total_summary", &tags, "totalSummaryOffset is 0 in a version 4 file".into());
+    }
+    let signals: Vec<Vec<Option<f64>>> = c.chroms.iter().map(wig_signal).collect();
+    c09_zooms(&d, &signals, &tags, out);
+}
+
+pub fn oracle_c09_bed(c: &BedCase, bytes: &[u8], out: &mut Outcome) {
+    let tags = bed_tags(c);
+    let d = match indep::decode(bytes) {
+        Ok(d) => d,
+        Err(e) => {
+            out.fail("undecodable_file", &tags, e);
+            return;
+        }
+    };
+    if d.kind != indep::Kind::Bed {
+        out.fail("wrong_magic", &tags, "bigBed writer produced a bigWig magic".into());
+    }
+    let names: Vec<(String, u32)> = c.chroms.iter().map(|c| (c.name.clone(), c.len)).collect();
+    c09_common(&d, &names, &c.opts, &tags, out);
+    let n: usize = c.chroms.iter().map(|c| c.items.len()).sum();
+    if d.data_count != n as u64 {
+        out.fail("data_count", &tags, format!("dataCount {} != {} entries", d.data_count, n));
+    }
+    let want_as = c.autosql.clone().unwrap_or_else(|| bigtools::bed::autosql::BED3.to_string());
+    if d.autosql.as_deref() != Some(want_as.as_str()) {
+        out.fail("decoded_autosql", &tags, format!("autoSql {:?}", d.autosql));
+    }
+    if let Some(fc) = declared_fields(&want_as) {
+        if d.field_count as usize != fc || d.defined_field_count as usize > fc {
+            out.fail("decoded_field_count", &tags, format!("fieldCount {} definedFieldCount {} vs {} declared", d.field_count, d.defined_field_count, fc));
+        }
+    }
+    for (ci, ch) in c.chroms.iter().enumerate() {
+        let got: Vec<(u32, u32, String)> = d
+            .bed_blocks
+            .iter()
+            .flatten()
+            .filter(|e| e.0 == ci as u32)
+            .map(|e| (e.1, e.2, e.3.clone()))
+            .collect();
+        let want: Vec<(u32, u32, String)> = ch.items.iter().map(|i| (i.s, i.e, i.rest.clone())).collect();
+        if got != want {
+            out.fail("decoded_records_differ", &tags, format!("{}: decoded {:?}, wrote {:?}", ch.name, got, want));
+        }
+    }
+    if let Some(s) = &d.summary {
+        let mut tot = Stats { min: f64::INFINITY, max: f64::NEG_INFINITY, ..Default::default() };
+        for ch in &c.chroms {
+            tot = merge_stats(&tot, &stats_of(&bed_signal(ch)));
+        }
+        let minmax_ok = tot.bases == 0 || (s.min == tot.min && s.max == tot.max);
+        if s.bases != tot.bases || !close64(s.sum, tot.sum, tot.abs_sum) || !close64(s.sumsq, tot.sumsq, tot.abs_sumsq) || !minmax_ok {
+            out.fail("decoded_summary", &tags, format!("summary {:?}, depth gives bases {} min {} max {} sum {} sumsq {}", s, tot.bases, tot.min, tot.max, tot.sum, tot.sumsq));
+        }
+    } else {
+        out.fail("no_total_summary", &tags, "totalSummaryOffset is 0 in a version 4 file".into());
+    }
+    let signals: Vec<Vec<Option<f64>>> = c.chroms.iter().map(bed_signal).collect();
+    c09_zooms(&d, &signals, &tags, out);
+}
+
+impl Check for C09 {
+    type Case = FileCase;
+    fn id(&self) -> &'static str {
+        "C09"
+    }
+    fn cases(&self, tier: Tier) -> Box<dyn Iterator<Item = FileCase> + '_> {
+        Box::new(
+            wig_family(tier)
+                .chain(bed_family(tier))
+                .chain(wig_zoom_family(tier))
+                .chain(bed_zoom_family(tier)),
+        )
+    }
+    fn run(&self, case: &FileCase, out: &mut Outcome) {
+        match expand(case) {
+            FileCase::Wig(c) => {
+                let Some(bytes) = do_write_wig(&c, out) else { return };
+                let dec = structure(&bytes, c.chroms.len(), out);
+                out.nontrivial = dec.map(|d| d.main.leaves.len() >= 2 || !d.zooms.is_empty()).unwrap_or(false);
+                out.outcome_hash = Some(fnv(&bytes));
+                out.count("wig_files", 1);
+                oracle_c09_wig(&c, &bytes, out);
+            }
+            FileCase::Bed(c) => {
+                let Some(bytes) = do_write_bed(&c, out) else { return };
+                let dec = structure(&bytes, c.chroms.len(), out);
+                out.nontrivial = dec.map(|d| d.main.leaves.len() >= 2 || !d.zooms.is_empty()).unwrap_or(false);
+                out.outcome_hash = Some(fnv(&bytes));
+                out.count("bed_files", 1);
+                oracle_c09_bed(&c, &bytes, out);
+            }
+            _ => {}
+        }
+    }
+    fn space(&self, tier: Tier) -> serde_json::Value {
+        json!({
+            "union_of": ["C01 space", "C02 space", "C07 space", "C08 space"],
+            "k": k_for(tier),
+            "decoder": "harness/vh/src/indep.rs (byte slicing + miniz_oxide inflate; no bigtools code)",
+        })
+    }
+}
+
+/// Rule identifier from a decoder message: its first words with numbers and punctuation removed.
+pub fn slug(msg: &str) -> String {
+    let cleaned: String = msg
+        .chars()
+        .map(|c| if c.is_ascii_alphabetic() { c.to_ascii_lowercase() } else { ' ' })
+        .collect();
+    cleaned.split_whitespace().take(7).collect::<Vec<_>>().join("_")
+}
